@@ -136,4 +136,74 @@ theorem readRequest_edit (txt : Str) (us : List TUOp) (h : EditText txt us) : re
     subst he; exact h)
   simpa [joinEdits, joinWith] using this
 
+/-- the texts in `_edits` after a list of write calls (refused calls queue nothing) -/
+def queueTexts (V : Vocab) (ns : List (Str × Str)) (hook : Bool) : List Write → Option (List Str)
+  | [] => some []
+  | w :: ws =>
+    match compileWrite hook w with
+    | none => queueTexts V ns hook ws
+    | some _ => (writeEdits V ns hook w).bind fun a => (queueTexts V ns hook ws).map (a ++ ·)
+
+theorem queue_pairs (V : Vocab) (ns : List (Str × Str)) (hV : VocabOK V ns) (hook : Bool) :
+    ∀ (ws : List Write), (∀ w ∈ ws, w.textual = true) →
+    ∃ txts, queueTexts V ns hook ws = some txts ∧ txts.length = (ws.flatMap (queuedBy hook)).length ∧
+      ∀ pr ∈ txts.zip (ws.flatMap (queuedBy hook)), EditText pr.1 (pr.2.map (UOp.toText V))
+  | [], _ => ⟨[], rfl, rfl, by simp⟩
+  | w :: ws, h => by
+    obtain ⟨txts, h1, h2, h3⟩ := queue_pairs V ns hV hook ws (fun x hx => h x (List.mem_cons_of_mem _ hx))
+    cases hc : compileWrite hook w with
+    | none =>
+      refine ⟨txts, by simp [queueTexts, hc, h1], ?_, ?_⟩
+      · simp [List.flatMap_cons, queuedBy, hc, h2]
+      · simpa [List.flatMap_cons, queuedBy, hc] using h3
+    | some es =>
+      obtain ⟨a, g1, g2, g3⟩ := writeEdits_correct V ns hV hook w (h w (List.mem_cons_self ..)) es hc
+      refine ⟨a ++ txts, by simp [queueTexts, hc, g1, h1], ?_, ?_⟩
+      · simp [List.flatMap_cons, queuedBy, hc, g2, h2]
+      · intro pr hpr
+        simp only [List.flatMap_cons, queuedBy, hc] at hpr
+        rw [List.zip_append g2] at hpr
+        rcases List.mem_append.mp hpr with hp | hp
+        · exact g3 pr hp
+        · exact h3 pr (by simpa [queuedBy] using hp)
+
+/-- what `commit` sends for the queue of a list of write calls reads back as the queue, in order -/
+theorem commit_text_reads (V : Vocab) (ns : List (Str × Str)) (hV : VocabOK V ns) (hook : Bool) (ws : List Write)
+    (hw : ∀ w ∈ ws, w.textual = true) :
+    ∃ txts, queueTexts V ns hook ws = some txts ∧ txts.length = (ws.flatMap (queuedBy hook)).length ∧
+      (txts ≠ [] → readRequest (joinEdits txts) =
+        some ((ws.flatMap (queuedBy hook)).flatten.map (UOp.toText V))) := by
+  obtain ⟨txts, h1, h2, h3⟩ := queue_pairs V ns hV hook ws hw
+  refine ⟨txts, h1, h2, ?_⟩
+  intro hne
+  let Q := (ws.flatMap (queuedBy hook)).map (fun e => e.map (UOp.toText V))
+  let q := txts.zip Q
+  have hlen : txts.length = Q.length := by simp [Q, h2]
+  have hq1 : q.map (·.1) = txts := List.map_fst_zip (by omega)
+  have hq2 : q.map (·.2) = Q := List.map_snd_zip (by omega)
+  have hqne : q ≠ [] := by
+    intro e
+    have : (q.map (·.1)) = [] := by rw [e]; rfl
+    rw [hq1] at this; exact hne this
+  have hed : ∀ e ∈ q, EditText e.1 e.2 := by
+    intro e he
+    obtain ⟨i, hi, rfl⟩ := List.mem_iff_getElem.mp he
+    have hi1 : i < txts.length := by
+      have : i < (txts.zip Q).length := hi
+      rw [List.length_zip] at this; exact Nat.lt_of_lt_of_le this (Nat.min_le_left ..)
+    have hi2 : i < (ws.flatMap (queuedBy hook)).length := by rw [← h2]; exact hi1
+    have hm : (txts[i], (ws.flatMap (queuedBy hook))[i]) ∈ txts.zip (ws.flatMap (queuedBy hook)) := by
+      refine List.mem_iff_getElem.mpr ⟨i, ?_, ?_⟩
+      · rw [List.length_zip]; exact Nat.lt_min.mpr ⟨hi1, hi2⟩
+      · rw [List.getElem_zip]
+    have := h3 _ hm
+    simpa [q, Q] using this
+  have := readRequest_edits q hqne hed
+  rw [hq1] at this
+  rw [this]
+  congr 1
+  have : q.flatMap (·.2) = (q.map (·.2)).flatten := by simp [List.flatMap_def]
+  rw [this, hq2]
+  simp [Q, List.map_flatten]
+
 end RV.C20
